@@ -120,6 +120,10 @@ def trace_text(o, limit=60):
 def handle_failure(pid, r, jobs):
     """re-run with --trace, try to obtain a failing input and replay it on the real code"""
     extra = {}
+    if getattr(r, 'native_confirmed', None):
+        extra['native'] = r.native_confirmed
+        extra['verifier_output'] = r.reason
+        return write_replay(pid, r, extra), True
     tr = core.run_group(r.group, trace=True, workroot=os.path.join(core.BUILD, 'trace'))
     inputs = {}
     vout = []
@@ -191,7 +195,22 @@ def main():
             for o in obs[:2]:
                 samples.append({'group': g.name, 'obligation': o['name'], 'description': o['desc'], 'status': o['status'],
                                 'at': '%s:%s' % (o['file'], o['line'])})
-        if r.status == 'UNDECIDED':
+        if r.status == 'UNDECIDED' and r.loop_mismatch and g.replay:
+            # proof not applicable to the refactored loops: search for a failing input on the real code instead
+            try:
+                nat = nreplay.run(g.replay, g, {})
+            except Exception as e:
+                nat = {'confirmed': False, 'detail': 'native replay error: %r' % (e,)}
+            if nat and nat.get('confirmed'):
+                r.status = 'FAILED'
+                r.failed = [{'name': g.name + '.native_oracle', 'desc': 'loop contracts not applicable (%s); native input search on the real code violates the property oracle: %s'
+                             % (r.reason, str(nat.get('detail'))[:300]), 'file': '', 'line': '', 'function': '', 'status': 'FAILURE', 'cls': 'native'}]
+                r.native_confirmed = nat
+                violations.append(r)
+            else:
+                r.reason += ' (native input search on the real code found no violation)'
+                undecided.append(r)
+        elif r.status == 'UNDECIDED':
             undecided.append(r)
         elif r.status == 'FAILED':
             mine = [o for o in r.failed if sel(g, o)]
